@@ -15,18 +15,19 @@ OPTIONS = {
     "integer": [
         ("minimum", {"minimum": 1}), ("maximum", {"maximum": 9}), ("exclusiveMinimum", {"exclusiveMinimum": 0}), ("exclusiveMaximum", {"exclusiveMaximum": 10}),
         ("multipleOf", {"multipleOf": 3}), ("default", {"default": 6}), ("title", {"title": "Count"}), ("enum", {"enum": [3, 6, 9]}),
-        ("format-int32", {"format": "int32"}), ("format-int64", {"format": "int64"}), ("description", {"description": "a count"}),
+        ("format-int32", {"format": "int32"}), ("format-int64", {"format": "int64"}), ("format-datetime", {"format": "date-time"}), ("description", {"description": "a count"}),
     ],
     "number": [
         ("minimum", {"minimum": 0.5}), ("maximum", {"maximum": 9.5}), ("exclusiveMinimum", {"exclusiveMinimum": 0}), ("exclusiveMaximum", {"exclusiveMaximum": 10}),
         ("multipleOf", {"multipleOf": 1.5}), ("default", {"default": 4.5}), ("title", {"title": "Ratio"}), ("enum", {"enum": [1.5, 3, 4.5]}),
-        ("format-float", {"format": "float"}),
+        ("format-float", {"format": "float"}), ("format-date", {"format": "date"}),
+        ("maximum-big", {"maximum": 9007199254740991}), ("minimum-big", {"minimum": -9007199254740991}), ("maximum-13digits", {"maximum": 1234567890123.5}),
     ],
     "array": [
         ("minItems", {"minItems": 1}), ("maxItems", {"maxItems": 3}), ("default", {"default": None}), ("default-empty", {"default": []}), ("title", {"title": "List"}),
         ("nested", None), ("items-constrained", None), ("description", {"description": "a list"}),
     ],
-    "boolean": [("default-true", {"default": True}), ("default-false", {"default": False}), ("title", {"title": "Flag"}), ("enum", {"enum": [True]})],
+    "boolean": [("default-true", {"default": True}), ("default-false", {"default": False}), ("title", {"title": "Flag"}), ("enum", {"enum": [True]}), ("format-time", {"format": "time"})],
 }
 # combinations outside the guards, with the finding / reason
 SKIP = {
@@ -90,7 +91,7 @@ def consistent(s):
     import re as _re
     for m in s.get("enum", []):
         if isinstance(m, str):
-            if len(m) < s.get("minLength", 0) or len(m) > s.get("maxLength", 10 ** 6) or ("pattern" in s and not _re.search(s["pattern"], m)):
+            if len(m) < s.get("minLength", 0) or len(m) > s.get("maxLength", 10 ** 6) or ("pattern" in s and not _re.search(s["pattern"].replace("$", "\\Z"), m)):
                 return False
         elif isinstance(m, (int, float)) and not isinstance(m, bool):
             if ("minimum" in s and m < s["minimum"]) or ("maximum" in s and m > s["maximum"]):
